@@ -11,6 +11,7 @@ type JOSEConsumer struct {
 	Name        string
 	EmbeddedKey bool     // the protocol carries the verification key inside the token: the private-key clause applies
 	BytesAreID  bool     // the received bytes are the object's identity (DAG: reference = SHA-256 of the bytes)
+	AlgFromKey  bool     // the protocol derives the algorithm from the resolved key and treats the JWS header as opaque signed bytes (JSON-LD proofs)
 	Allowed     []string // algorithm labels the node documents as allowed for this consumer
 	// KeyFor names the key the PROTOCOL designates for the protected header as received (nil: none, must be refused)
 	KeyFor func(f JOSEFacts) crypto.PublicKey
@@ -56,6 +57,10 @@ func JOSEReference(c JOSEConsumer, v JOSEVariant, signingPayload string) JOSEVer
 			cl = "alg-key-mismatch"
 		}
 		return JOSEVerdict{Clause: cl}
+	}
+	if !c.AlgFromKey && f.Alg != a {
+		// a genuine signature by the right key, but made with ANOTHER algorithm than the protected header names
+		return JOSEVerdict{Clause: "alg-label-mismatch", Alg: a}
 	}
 	return JOSEVerdict{Strict: f.Strict, Lenient: true, Alg: a}
 }
